@@ -2,7 +2,7 @@
 returned there (before anything else was issued) belongs to work issued before the destructor's implicit barrier."""
 from . import *
 
-KINDS = ['map', 'multimap', 'set', 'multiset', 'bag', 'array', 'counting_set', 'disjoint_set']
+KINDS = ['map', 'multimap', 'set', 'multiset', 'bag', 'array', 'array_small', 'array_empty', 'counting_set', 'disjoint_set']
 
 def explore(seed, tier):
     exe, err = compile_sim('dtor', ['harness/dtor.cpp'])
